@@ -55,8 +55,10 @@ ARCHS = [
 ARCH_IX = {a[0]: i for i, a in enumerate(ARCHS)}
 ISA_STEM = {"x86": 100, "aarch64": 101}
 ISA_CONTENT = {"x86": 900, "aarch64": 901}
-NVAR = 4  # content variants per model file: 0 shipped, 1 instruction latencies +1 (file head unchanged),
-          # 2 header and instruction latencies +2, 3 cosmetic comment at the end
+NVAR = 5  # content variants per model file: 0 shipped, 1 instruction latencies +1 (file head unchanged),
+          # 2 header and instruction latencies +2, 3 cosmetic comment at the end, 4 one instruction form appended at the
+          # very end (only the last few hundred bytes differ from 0; the kernels use its mnemonic, unknown otherwise)
+TAIL_MNEMONIC = "zzveriftail"
 HOME_LOC = 99
 LAZY_OFF = 1000000
 PERTURB = set("EKCDFSWHR")
@@ -169,6 +171,12 @@ def variant(text, k):
         return text
     if k == 3:
         return text + "\n# cosmetic edit (C17 check)\n"
+    if k == 4:
+        m = re.search(r"(?m)^ports:\s*\[\s*'?\"?([^,'\"\]]+)", text)
+        port = m.group(1).strip() if m else "0"
+        reg = "name: gpr" if re.search(r"(?m)^isa:\s*x86", text) else "prefix: x"
+        return (text.rstrip("\n") + "\n- name: %s\n  operands:\n  - class: register\n    %s\n  - class: register\n    %s\n"
+                "  throughput: 1.0\n  latency: 7.0\n  port_pressure: [[1, ['%s']]]\n" % (TAIL_MNEMONIC, reg, reg, port))
 
     def bump(m):
         return m.group(1) + repr(float(m.group(2)) + k)
@@ -258,6 +266,14 @@ class World:
         for k in kernels:
             shutil.copy(os.path.join(core.REPO, "tests", "test_files", k), os.path.join(kd, k))
             self.kernels.append(os.path.join(kd, k))
+        # a kernel that uses the mnemonic only content variant 4 defines (its last instruction form)
+        tail = os.path.join(kd, "tail.s")
+        with open(tail, "w") as f:
+            if self.isa == "x86":
+                f.write("addq %rax, %rbx\n" + TAIL_MNEMONIC + " %rbx, %rcx\naddq %rcx, %rax\n")
+            else:
+                f.write("add x1, x2, x3\n" + TAIL_MNEMONIC + " x4, x1\nadd x2, x4, x4\n")
+        self.kernels.append(tail)
         self.ro = set()  # dir ids and HOME_LOC
         self.stem = ARCH_IX[arch]
         self.isa_stem = ISA_STEM[self.isa]
@@ -380,6 +396,10 @@ def fixed_histories():
         hs.append(("cut-home-%d" % cls, [{"t": "W", "d": 1, "b": False}, A, N,
                                          {"t": "C", "loc": HOME_LOC, "stem": "arch", "c": 0, "cls": cls}, A, N, A]))
         hs.append(("cut-isa-%d" % cls, [A, N, {"t": "C", "loc": 3, "stem": "isa", "c": "isa", "cls": cls}, A, N, A]))
+    # an edit confined to the last bytes of the model file (a cache key over a prefix or over whole blocks would not notice)
+    hs.append(("tail-edit", [A, N, {"t": "E", "d": 1, "c": 4}, A, N, A, {"t": "E", "d": 1, "c": 0}, A, N, A]))
+    hs.append(("tail-edit-home", [{"t": "W", "d": 1, "b": False}, A, N, {"t": "W", "d": 1, "b": True}, {"t": "E", "d": 1, "c": 4},
+                                  {"t": "W", "d": 1, "b": False}, A, N, A]))
     # in-process cache: an instance changed through the public API must not be what later loads are served
     M = {"t": "M"}
     hs.append(("mutated-instance", [A, M, A, M, {"t": "Z"}, A, N, A]))
